@@ -1,6 +1,7 @@
 (* C08: Diagnostics point at the true source location (line table and line:column part; the
    statement that every diagnostic carries the end offset of the offending token is part of the
    parser theorems, see DESIGN.md section 6 C08). *)
+From Coq Require Import Sorted.
 From BCL Require Import Model.Api Proofs.LineCalcProofs Proofs.LexerProofs.
 Open Scope N_scope.
 
